@@ -20,6 +20,7 @@ type input struct {
 	Name string `json:"name"`
 	Kind string `json:"kind"`
 	V    int64  `json:"v"`
+	S    string `json:"s,omitempty"`
 }
 
 type replay struct {
@@ -102,6 +103,28 @@ func Choice(name string, n int) int {
 		panic(AssumeError{})
 	}
 	return v
+}
+
+// ChoiceOf returns an arbitrary element of options.  The replay file records
+// the chosen string, not its index, so that a replay stays valid when the
+// option list (e.g. a registry that other linked packages add to) differs
+// between the symbolic load and the native test binary.
+func ChoiceOf(name string, options []string) string {
+	if pos < len(cur.Inputs) {
+		in := cur.Inputs[pos]
+		pos++
+		for _, o := range options {
+			if o == in.S {
+				return o
+			}
+		}
+		panic(AssumeError{})
+	}
+	pos++
+	if len(options) == 0 {
+		panic(AssumeError{})
+	}
+	return options[0]
 }
 
 // Bytes returns an arbitrary byte slice of length ≤ maxLen.
